@@ -366,18 +366,28 @@ def check_case(case, seed=0):
             if got != exp and not (not has_def and got == appended):
                 bad("reassign", "wrong_program", f"reassign({s}, p2 + 1) gives {_text(got) if 'error' not in got[0] else got}, expected {_text(exp)}", sym=s)
 
-    # ---- subs
+    # ---- subs: the documented key forms -- Expr, str ("old-new pairs (can be type str or symbol)") and sympy symbols --
+    # must all rename right hand sides AND left hand sides (RefSubs does not know key types)
     for bj in case["sb"]:
         a, b = bj["a"], bj["b"]
-        ok, r = call("subs", lambda: sts.subs({E.Expr.symbol(a): E.Expr.symbol(b)}), sub=f"{a}->{b}")
-        if ok:
-            try:
-                got = E.proj_prog(r)
-            except ValueError as e:
-                got = [{"error": str(e)}]
-            exp = _norm_prog(bj["p"])
-            if got != exp:
-                bad("subs", "wrong_program", f"subs({{{a}: {b}}}) gives {got}, expected {_text(exp)}", sub=f"{a}->{b}")
+        forms = {
+            "Expr": {E.Expr.symbol(a): E.Expr.symbol(b)},
+            "str": {a: b},
+            "sympy": {E.sympy.Symbol(a): E.sympy.Symbol(b)},
+        }
+        exp = _norm_prog(bj["p"])
+        for form, mapping in forms.items():
+            if form != "Expr" and a not in ("A",) and (len(prog) + len(a)) % 2:
+                continue  # leaf renamings: alternate the extra key forms, symbol renamings: all three
+            ok, r = call("subs", lambda: sts.subs(mapping), sub=f"{a}->{b}", key_form=form)
+            if ok:
+                try:
+                    got = E.proj_prog(r)
+                except ValueError as e:
+                    got = [{"error": str(e)}]
+                if got != exp:
+                    bad("subs", "wrong_program", f"subs({{{a}: {b}}}) with {form} keys gives {_text(got) if 'error' not in got[0] else got}, expected {_text(exp)}",
+                        sub=f"{a}->{b}", key_form=form)
     ok, r = call("subs", lambda: sts.subs({}), sub="{}")
     if ok and (len(r) != len(sts) or any(x != y for x, y in zip(r, sts))):
         bad("subs", "wrong_program", "subs({}) changed the statements", sub="{}")
